@@ -7,7 +7,7 @@ use super::{Operator, OperatorResult};
 use crate::execution::chunk::DataChunkBuilder;
 use crate::graph::Direction;
 use crate::graph::lpg::LpgStore;
-use grafeo_common::types::{LogicalType, NodeId, Value};
+use grafeo_common::types::{EpochId, LogicalType, NodeId, TxId, Value};
 use std::collections::{HashMap, VecDeque};
 use std::sync::Arc;
 
@@ -32,6 +32,8 @@ pub struct ShortestPathOperator {
     all_paths: bool,
     /// Whether the operator has been exhausted.
     exhausted: bool,
+    /// Epoch and transaction the search sees the graph at (None = every adjacency entry).
+    viewing: Option<(EpochId, TxId)>,
 }
 
 impl ShortestPathOperator {
@@ -53,7 +55,16 @@ impl ShortestPathOperator {
             direction,
             all_paths: false,
             exhausted: false,
+            viewing: None,
         }
+    }
+
+    /// Sets the transaction context: the search walks only edges, and reaches only
+    /// nodes, that are visible to this transaction at `epoch`.
+    #[must_use]
+    pub fn with_tx_context(mut self, epoch: EpochId, tx_id: Option<TxId>) -> Self {
+        self.viewing = Some((epoch, tx_id.unwrap_or(TxId::SYSTEM)));
+        self
     }
 
     /// Sets whether to find all shortest paths.
@@ -167,10 +178,22 @@ impl ShortestPathOperator {
     fn get_neighbors(&self, node: NodeId) -> Vec<NodeId> {
         self.store
             .edges_from(node, self.direction)
-            .filter(|(_target, edge_id)| {
+            .filter(|(target, edge_id)| {
+                // With a tx context, only edges and far endpoints this transaction sees
+                if let Some((epoch, tx)) = self.viewing {
+                    if self.store.get_edge_versioned(*edge_id, epoch, tx).is_none()
+                        || self.store.get_node_versioned(*target, epoch, tx).is_none()
+                    {
+                        return false;
+                    }
+                }
                 // Filter by edge type if specified
                 if let Some(ref filter_type) = self.edge_type {
-                    if let Some(edge_type) = self.store.edge_type(*edge_id) {
+                    let seen_type = match self.viewing {
+                        Some((epoch, tx)) => self.store.edge_type_versioned(*edge_id, epoch, tx),
+                        None => self.store.edge_type(*edge_id),
+                    };
+                    if let Some(edge_type) = seen_type {
                         edge_type
                             .as_str()
                             .eq_ignore_ascii_case(filter_type.as_str())
